@@ -116,4 +116,33 @@ theorem repr_closed :
     (∀ d, reprPdffit d = true → reprPdffit (quantPdffit d) = true) ∧ (∀ d, reprPdb d = true → reprPdb (quantPdb d) = true) :=
   ⟨reprXyz_quant, reprRaw_quant, reprDiscus_quant, reprPdffit_quant, reprPdb_quant⟩
 
+/-! ## XCFG and CIF: full statements (not proved) and the proved record-level fragments -/
+
+/-- full-strength statement for XCFG: `parse(write(d)) = quant(d)` on the modelled writer and reader
+(checked on every generated case by the correspondence; no proof) -/
+def roundtrip_xcfg_statement : Prop := DS.Formats.roundtrip_xcfg_statement
+
+/-- full-strength statement for CIF on the layout `P_cif.toLines` emits (PyCifRW itself is not
+modelled; checked on every generated case by the correspondence; no proof) -/
+def roundtrip_cif_statement : Prop := DS.Formats.roundtrip_cif_statement
+
+/-- proved fragment for XCFG: every entry line reads back, column by column, as the printed numbers -/
+theorem roundtrip_xcfg_partial (L : XLayout) (a : XAtom) :
+    ∃ vs : List Rat, xcfgEntry L a = ssv (vs.map g8) ∧
+      (splitWs (xcfgEntry L a)).mapM parseDec = some (vs.map (roundSig 8)) :=
+  xcfgEntry_roundtrip L a
+
+/-- proved fragment for CIF: every `_atom_site` row splits into its eight values and the numeric ones
+read back rounded to the printed precision -/
+theorem roundtrip_cif_partial (label : Str) (a : CifAtom) (hl : IsTok label) (he : IsTok a.el) :
+    splitWs (cifAtomLine label a) =
+      [label, a.el, fmtFbody 6 a.xyz.x, fmtFbody 6 a.xyz.y, fmtFbody 6 a.xyz.z, fmtFbody 6 a.uiso,
+       (if uIsIso a.u then "Uiso".toList else "Uani".toList), fmtFbody 4 a.occ] ∧
+    ([fmtFbody 6 a.xyz.x, fmtFbody 6 a.xyz.y, fmtFbody 6 a.xyz.z, fmtFbody 6 a.uiso, fmtFbody 4 a.occ].mapM parseDec
+      = some [roundTo 6 a.xyz.x, roundTo 6 a.xyz.y, roundTo 6 a.xyz.z, roundTo 6 a.uiso, roundTo 4 a.occ]) :=
+  cif_row_roundtrip label a hl he
+
+example : IsTok "Na1".toList ∧ IsTok "Na".toList :=
+  ⟨⟨by decide, by intro c hc; revert c; decide⟩, ⟨by decide, by intro c hc; revert c; decide⟩⟩
+
 end DS.Props.C04
